@@ -48,6 +48,9 @@ CHECKS["C07"] = dict(cat="model_checking", tech="TLC model checking of Compile.t
 CHECKS["C08"] = dict(cat="model_checking", tech="TLC model checking of Diff.tla (ApplyDiff(Compile(A), A->B) = Compile(B) for all bags of lines, both orders; refused diff is a no-op) + real Preprocess / compile / rdb.ApplyDiff chains dumped completely + TLC comparison with a fresh compile (StoreTrace)",
     text="The diff theorem is checked on the property layer for every pair of small files (repeated lines, one pair from several lines); on the real code chains of 2-5 successive diffs in forward / reverse / shuffled order, v1 and v2 keys, with record, duplicate and subnet (range-point) changes are applied with rdb.ApplyDiff and every resulting database is dumped and compared by TLC with a fresh compile; eight classes of diffs that must be refused are checked to fail and leave the dump unchanged.",
     note=STORE_NOTE, ref="6.3")
+CHECKS["C16"] = dict(cat="model_checking", tech="TLC model checking of CdbFile.tla (slot tables with linear probing vs 'values in insertion order' for EVERY hash function and pair sequence) + TLC-enumerated pair sequences, searched SpookyHash collisions, sizes 0..50000 and buffer-boundary lengths written and read back with the real go-cdb-mods + TLC recomputation of the expected value lists (CdbTrace)",
+    text="The slot-table construction and probing lookup are model-checked against the abstract sequence of pairs for every hash function into 8 values over 2 tables (every collision pattern of <=4-5 pairs); every enumerated sequence over keys {'', a, b} x values {'', x, yy}, keys found at run time that collide on table and start slot (wrapping chains) or in all 32 hash bits with an extension of themselves, sizes up to 50000 and lengths around the 4096-byte buffers are written with the real writer, read back key by key to end-of-data, enumerated and round-tripped through Dump -> Make (byte equality); TLC recomputes the expected lists.",
+    note="Bounded model (3 keys, 2 tables, 8 hash values, <=5 pairs); real-code cases are sampled executions; trusts TLC, the harness' hex representation of byte strings.", ref="6.4")
 NA = {}
 props = [json.loads(l)["id"] for l in open(os.path.join(V, "properties.jsonl"))]
 m = {
